@@ -8,6 +8,7 @@ CLEAN = "/tmp/agentR_tree"
 LEAN = "/root/scratch/agentR/lean"
 EXTRACT = "/root/scratch/agentR/extract.bin"
 ROB = "/tmp/agentR_rob"
+TARGETS = ["Proofs.RowTie", "Proofs.RowTieAll", "Proofs.RowTieGetters", "Proofs.RowTieMarshal", "Proofs.RowTieText"]
 
 def sub1(s, old, new, count=1):
     assert s.count(old) >= 1, "pattern not found: " + old[:60]
@@ -541,9 +542,9 @@ def main():
             same = facts == clean_facts
             other_same = all(open(os.path.join(gen, f)).read() == open(os.path.join(LEAN, "Gen", f)).read() for f in ["ValueTable.lean", "CastTable.lean"])
             open(os.path.join(LEAN, "Gen/RowFacts.lean"), "w").write(facts)
-            rc, out = sh(["lake", "build", "Proofs.RowTie"], cwd=LEAN)
+            rc, out = sh(["lake", "build"] + TARGETS, cwd=LEAN)
             tie = "builds" if rc == 0 else "FAILS"
-            failing = sorted(set(re.findall(r"error: [^\n]*RowTie\.lean:(\d+)", out)))
+            failing = sorted(set(re.findall(r"error: Proofs/(RowTie\w*)\.lean:\d+", out)))
             diff = ""
             if not same:
                 a, b = clean_facts.splitlines(), facts.splitlines()
@@ -554,7 +555,7 @@ def main():
             shutil.rmtree(tree, ignore_errors=True)
     finally:
         open(os.path.join(LEAN, "Gen/RowFacts.lean"), "w").write(saved)
-        sh(["lake", "build", "Proofs.RowTie"], cwd=LEAN)
+        sh(["lake", "build"] + TARGETS, cwd=LEAN)
     json.dump(rows, open(os.path.join(ROB, "result.json"), "w"), indent=1)
     bad = [r for r in rows if (r[0] == "H" and not (r[2] == "unchanged" and r[3] == "builds")) or (r[0] == "B" and not (r[2] == "CHANGED" and r[3] == "FAILS"))]
     print("UNEXPECTED:", bad)
